@@ -3,7 +3,8 @@ package main
 import "verif/engine/interp"
 
 func init() {
-	props["C18"] = &propImpl{files: []string{"h_c18.go"}, run: runC18}
+	props["C18"] = &propImpl{files: []string{"h_c18.go", "h_c18twin.go"}, run: runC18,
+		fallbackFiles: []string{"h_c18twin.go"}, hooks: []string{"internal/scanner", "internal/position", "pkg/token", "pkg/position"}, fallbackRun: runC18Twin}
 }
 
 func runC18(c *Check) error {
@@ -38,6 +39,17 @@ func runC18(c *Check) error {
 	}
 	c.CrossSolvers(proof)
 	c.ExploreNeed(&interp.Job{Entry: "H_C18_Sizes", Tag: "sizes", Params: map[string]interface{}{}}, "sizes")
+	return runC18TwinJobs(c)
+}
+
+// runC18Twin: the public-API part alone (see propImpl.fallbackRun).
+func runC18Twin(c *Check) error {
+	c.Bounds = append(c.Bounds, "REDUCED: the pools' unexported fields are not the ones the accessors expect, the inductive step could not be set up on this tree; only the concrete twin (public API) is decided")
+	c.Assumptions = append(c.Assumptions, stdAssumptions...)
+	return runC18TwinJobs(c)
+}
+
+func runC18TwinJobs(c *Check) error {
 	Ls := []int{1, 2, 3}
 	if c.Tier == "thorough" {
 		Ls = []int{1, 2, 3, 4, 5, 7, 8, 16, 33}
